@@ -1,4 +1,29 @@
 from props.client_props import gen_c13
-PROP = {"id": "C13", "stages": [{"name": "client", "target": "h_client", "gen": gen_c13, "shard": 12}], "trivial_tags": [],
+from props.e2egen import *
+
+def gen_e2e(ctx):
+    """TLS histories: failed control handshake (garbage / unknown CA) with bytes left over from the old session, then
+    disconnect(false) and a new connect; 421 inside a TLS session then connect; normal TLS sessions with reconnects"""
+    rng = ctx["rng"]
+    noop = "noop@" + R(b"200 ok")
+    left = ",".join([R(b"234 auth"), R(b"999 LEFTOVER from the old session")])
+    for ver in (13, 12):
+        for verify in ("peer", "none"):
+            c = cfg_str(ver=ver, verify=verify, prop="C13")
+            # AUTH TLS accepted, an extra reply in the same segment, then the handshake breaks
+            for brk in ("G", "T,B"):
+                g = "connect:-:-:%s:%s@%s/%s,%s" % (H(b"user"), H(b"pass"), R(b"220 one"), left, brk)
+                yield line(c, [g, "isconn", "disc:0", "isconn", connect(), noop, "disc:1@" + R(b"221 bye"), "isconn"])
+                yield line(c, [g, "disc:0", connect(user=None), noop])
+            # 421 inside a TLS session, then a direct connect (no disconnect in between) and with one
+            yield line(c, [connect(), "noop@" + R(b"421 closing") + ",X", "isconn", connect(), noop])
+            yield line(c, [connect(), "noop@" + ",".join([R(b"421 closing"), R(b"999 LEFTOVER")]) + ",X", "isconn", "disc:0", connect(), noop])
+            # server drops the TLS session without close-notify; non-graceful disconnect; reconnect
+            yield line(c, [connect(), "noop@X", "disc:0", "isconn", connect(), noop, "disc:0", "isconn"])
+            yield line(c, [connect(), get("p", 1, end="t"), "disc:0", "isconn", connect(), get("p", 1), "disc:1@" + R(b"221 bye")])
+    ctx["scopes"].append("TLS 1.2/1.3 x verify peer/none: failed control handshake with leftover bytes, 421 inside TLS, dropped session, truncated data stream - each followed by disconnect / reconnect")
+
+PROP = {"id": "C13", "stages": [{"name": "client", "target": "h_client", "gen": gen_c13, "shard": 12},
+                   {"name": "e2e", "target": "h_e2e", "gen": gen_e2e, "shard": 4}], "trivial_tags": [],
         "rule": 'histories of connect / operations / disconnect(graceful or not) / reconnect with the old session ended normally, by 421, by a truncated or garbage reply, with leftover replies / partial lines / a lone LF in the old session, after failed transfers; connected flag, control life-cycle events, first reply of the next connect.',
         "assumptions": ["in-memory control transport (a socket_base subclass) stands in for the TCP control socket; data connections are real loopback TCP", "oracle values (read sizes, kernel-chosen ports, connect results) are taken from the implementation run"]}
